@@ -372,6 +372,7 @@ func c14Audit(wl *w2Workload, sessions []*c14Session, leaderReady, downFrom, dow
 	endedAt := map[int64]int64{}
 	ownerOf := map[string]int64{}         // key -> owning session, per the model, before the entry
 	lostAt := map[int64]map[string]int64{} // session -> key -> entry timestamp at which it stopped owning the key
+	gainedAt := map[string]int64{}        // key -> entry timestamp at which its current owner (ownerOf) acquired it
 	for _, e := range ents {
 		if e.Offset > committedUpTo(v) {
 			break
@@ -414,8 +415,17 @@ func c14Audit(wl *w2Workload, sessions []*c14Session, leaderReady, downFrom, dow
 				}
 				for k := range owned {
 					if !named[k] {
-						wl.fail("owned-record-survives-session-end", "log entry %d ends session %d but leaves its record %q in place (written under the session after the owned-key list was taken); the entry deletes %v",
-							e.Offset, sid, k, keysOfDeletes(wr))
+						// the clean-up lists the owned keys a moment before its entry is applied: a record written
+						// under the session within that moment is the recorded list-then-delete race; a record
+						// held for longer was missing from the session's index of owned keys
+						held := int64(e.Timestamp) - gainedAt[k]
+						if held <= 300 {
+							wl.fail("owned-record-survives-session-end", "log entry %d ends session %d but leaves its record %q in place (written under the session after the owned-key list was taken, %d ms before); the entry deletes %v",
+								e.Offset, sid, k, held, keysOfDeletes(wr))
+						} else {
+							wl.fail("owned-record-missing-from-session-index", "log entry %d ends session %d but leaves its record %q in place, which the session had owned for %d ms: it was not in the session's index of owned keys; the entry deletes %v",
+								e.Offset, sid, k, held, keysOfDeletes(wr))
+						}
 						return
 					}
 				}
@@ -433,6 +443,9 @@ func c14Audit(wl *w2Workload, sessions []*c14Session, leaderReady, downFrom, dow
 			}
 			for k, rec := range m.Recs {
 				if rec.Session != nil && !strings.HasPrefix(k, internalPrefix) {
+					if cur, had := ownerOf[k]; !had || cur != *rec.Session {
+						gainedAt[k] = int64(e.Timestamp)
+					}
 					ownerOf[k] = *rec.Session
 				}
 			}
